@@ -6,13 +6,18 @@ import NmVerif.NN.Views
   reduce.
 
   `shape_pool2d` computes `float(n + pad - ((k-1)*dilations + 1)) / stride + 1` with `pad = 0`, `dilations = 1` and
-  takes `floor` or `ceil`; on naturals (k ≤ n) that is `(n-k)/s + 1` resp. `⌈(n-k)/s⌉ + 1`.
+  takes `floor` or `ceil`; on naturals (k ≤ n) that is `(n-k)/s + 1` resp. `⌈(n-k)/s⌉ + 1`, and in ceil mode
+  (fixes/C17-pool-ceil-window.diff) drops a last window that would start at or beyond the end of the input.
 -/
 namespace NmVerif.NN
 
 /-- one spatial extent of `shape_pool2d` (requires `k ≤ n`; the C++ wraps in `size_t` otherwise) -/
 def poolExtent (n k s : Nat) (ceil : Bool) : Nat :=
-  if ceil then (n - k + s - 1) / s + 1 else (n - k) / s + 1
+  if ceil then
+    let o := (n - k + s - 1) / s + 1
+    -- the last window must start inside the input, otherwise it is dropped
+    if o > 1 ∧ (o - 1) * s ≥ n then o - 1 else o
+  else (n - k) / s + 1
 
 /-- `index::shape_pool2d`: `n_batch = dim - 2` leading axes copied, then axes `-2`, `-1` pooled
     (`none` = fewer than two axes or kernel/stride not pairs: out-of-range `at` in the C++) -/
